@@ -158,6 +158,29 @@ def run_closed(spec, rec, dadi):
             rec.close("godambe-matrices-closed-form", float(np.max(np.abs(Jc - J)) / gscale ** 2), 4 * tol, site="Godambe.get_godambe", tags=dict(tags, what="J"))
             rec.close("godambe-matrices-closed-form", float(np.max(np.abs(cUc.ravel() - cU)) / gscale), 2 * tol, site="Godambe.get_godambe", tags=dict(tags, what="cU"))
             rec.close("godambe-matrices-closed-form", float(np.max(np.abs(Gc - Hc @ np.linalg.inv(Jc) @ Hc)) / np.max(np.abs(Gc))), 1e-9, site="Godambe.get_godambe", tags=dict(tags, what="G=HJ^-1H"))
+        # (1a) the optional outputs and the log-parameter variant of the Godambe uncertainties
+        if ok:
+            okr, rg = rec.noraise("returns", lambda: Godambe.GIM_uncert(model, [10], boots, list(p0), data, multinom=False, eps=eps, return_GIM=True), site="Godambe.GIM_uncert", tags=tags)
+            if okr:
+                good = (isinstance(rg, tuple) and len(rg) == 3 and np.allclose(np.asarray(rg[1], float), Gc, rtol=1e-10, atol=0)
+                        and np.allclose(np.asarray(rg[2], float), Hc, rtol=1e-10, atol=0)
+                        and np.allclose(np.asarray(rg[0], float), np.sqrt(np.diag(np.linalg.inv(Gc))), rtol=1e-9, atol=0))
+                rec.check("GIM-closed-form", bool(good), site="Godambe.GIM_uncert", tags=dict(tags, what="return_GIM"))
+            okh, hh = rec.noraise("returns", lambda: Godambe.get_godambe(model, [10], boots, list(p0), data, eps, just_hess=True), site="Godambe.get_godambe", tags=tags)
+            if okh:
+                rec.close("godambe-matrices-closed-form", float(np.max(np.abs(np.asarray(hh, float) - Hc)) / np.max(np.abs(Hc))), 1e-12, site="Godambe.get_godambe", tags=dict(tags, what="just_hess"))
+            g0 = Bm.T @ (-1 + d / m[mid])
+            Hl = np.diag(p0) @ H @ np.diag(p0) - np.diag(g0 * p0)
+            Jl = np.diag(p0) @ J @ np.diag(p0)
+            Gl = Hl @ np.linalg.inv(Jl) @ Hl
+            okl, gl = rec.noraise("returns", lambda: Godambe.GIM_uncert(model, [10], boots, list(p0), data, log=True, multinom=False, eps=eps), site="Godambe.GIM_uncert", tags=tags)
+            if okl and np.all(np.diag(np.linalg.inv(Gl)) > 0):
+                e1 = rel(gl, np.sqrt(np.diag(np.linalg.inv(Gl))))
+                okl2, gl2 = rec.noraise("returns", lambda: Godambe.GIM_uncert(model, [10], boots, list(p0), data, log=True, multinom=False, eps=eps / 2), site="Godambe.GIM_uncert", tags=tags)
+                if okl2:
+                    e2 = rel(gl2, np.sqrt(np.diag(np.linalg.inv(Gl))))
+                    cond = np.linalg.cond(Hl) + np.linalg.cond(Jl)
+                    rec.check("GIM-log-second-order", e1 <= 0.5 and e2 <= e1 / 2.5 + 4 * eps ** 2 + 1e-9 * cond, site="Godambe.GIM_uncert", tags=dict(tags, log=True), observed=[e1, e2])
         # (1b) bootstraps with their own relative theta (boot_theta_adjusts): score of bootstrap b is B^T(-a_b + boot_b/m); H is untouched;
         #      jointly permuting bootstraps and adjustments changes nothing; a plain call afterwards is what it was before
         adj = [float(v) for v in np.exp(rng.uniform(-0.25, 0.25, len(boots)))]
